@@ -24,10 +24,12 @@ import (
 
 // The canonical version sets. Their order is the ecosystem's documented order (SemVer 2.0
 // precedence; Maven ComparableVersion; PEP 440) and is asserted here by position only.
+// The smallest version of each set is a pre-release of 0, which the ecosystem orders BELOW
+// the plain version "0": the OSV literal "0" must nevertheless precede it.
 var c18Versions = map[string][]string{
-	"npm":   {"0.9.0", "1.0.0-alpha.1", "1.0.0-beta", "1.0.0", "1.2.0", "1.10.0", "2.0.0"},
-	"Maven": {"0.9", "1.0-alpha-1", "1.0-beta-1", "1.0", "1.0.1", "1.9", "1.10"},
-	"PyPI":  {"0.9", "1.0.dev1", "1.0a1", "1.0rc1", "1.0", "1.0.post1", "1.10"},
+	"npm":   {"0.0.0-alpha", "1.0.0-alpha.1", "1.0.0-beta", "1.0.0", "1.2.0", "1.10.0", "2.0.0"},
+	"Maven": {"0-alpha-1", "1.0-alpha-1", "1.0-beta-1", "1.0", "1.0.1", "1.9", "1.10"},
+	"PyPI":  {"0.dev1", "1.0.dev1", "1.0a1", "1.0rc1", "1.0", "1.0.post1", "1.10"},
 }
 
 var c18Systems = map[string]resolve.System{"npm": resolve.NPM, "Maven": resolve.Maven, "PyPI": resolve.PyPI}
